@@ -13,6 +13,7 @@ type Generator struct {
 	scopes         int
 	instructions   []Instruction
 	knownFunctions map[int]*SexpFunction
+	depth          int // nesting of Generate calls
 }
 
 type Loop struct {
@@ -866,6 +867,11 @@ func (gen *Generator) GenerateArray(arr *SexpArray) error {
 func (gen *Generator) Generate(expr Sexp) error {
 	if _, isComment := expr.(*SexpComment); isComment {
 		return nil
+	}
+	gen.depth++
+	defer func() { gen.depth-- }()
+	if gen.depth > maxDataDepth {
+		return fmt.Errorf("expression nested more than %d levels deep (self-referential data?)", maxDataDepth)
 	}
 	switch e := expr.(type) {
 	case *SexpSymbol:
